@@ -138,6 +138,7 @@ PLAN = {
             {"run": "TestC11_FirstUse", "checks": 60, "race": True},
             {"run": "TestC11_OptionTwins", "checks": 150, "race": True},
             {"run": "TestC11_LRUBound", "checks": 40, "race": True, "cores": 8},
+            {"run": "TestC11_SweepContention", "checks": 120, "race": True, "cores": 8},
         ],
         "thorough": [
             {"run": "TestC11_Programs", "checks": 7500, "race": True, "shards": 8, "timeout": 7200},
@@ -145,6 +146,7 @@ PLAN = {
             {"run": "TestC11_FirstUse", "checks": 5000, "race": True, "shards": 4, "timeout": 7200},
             {"run": "TestC11_OptionTwins", "checks": 8000, "race": True, "shards": 4, "timeout": 7200},
             {"run": "TestC11_LRUBound", "checks": 1500, "race": True, "shards": 2, "cores": 8, "timeout": 7200},
+            {"run": "TestC11_SweepContention", "checks": 800, "race": True, "shards": 2, "cores": 8, "timeout": 7200},
         ],
     },
     "C12": {
